@@ -544,6 +544,11 @@ def averaged_predictive(rec):
             return '%s predictive model: two calls with seed 5 (%s) under different states of the global generator return different samples' % (kind, mode)
         if np.array_equal(a, c):
             return '%s predictive model: seeds 5 and 6 (%s) give identical samples' % (kind, mode)
+        # different seeds give different draws: no sample of one call re-appears (as a whole series of continuous values) in the other call
+        for i_ in range(n):
+            for j_ in range(n):
+                if np.array_equal(a[i_], c[j_]):
+                    return '%s predictive model (%s): sample %d drawn with seed 5 is identical to sample %d drawn with seed 6 (the streams of neighbouring seeds overlap)' % (kind, mode, i_ + 1, j_ + 1)
         # noise of sample i, output o, time t:  value - (level of the drawn parameters); toy output = (o + 1) * p + 5, noise sd about 1
         lev = np.round((a - 5.0) / (np.arange(1, 3)[None, :, None] * 100.0)) * 100.0 if kind != 'prior' else None
         noise = a - 5.0 - (np.arange(1, 3)[None, :, None] * lev) if lev is not None else a - a.mean(axis=2, keepdims=True)
